@@ -2,10 +2,10 @@
 # Each harness is a Go function in /verif/harness (package rapid) executed
 # symbolically by gosym against /repo's working tree.
 
-def H(name, bounds="", reach=(), native=True, thorough_only=False, quick=None, thorough=None, nodiff=False, opts=None):
+def H(name, bounds="", reach=(), native=True, thorough_only=False, quick=None, thorough=None, nodiff=False, opts=None, search=None):
     return {"name": name, "bounds": bounds, "reach": list(reach), "native": native,
             "thorough_only": thorough_only, "quick": quick or {}, "thorough": thorough or {},
-            "nodiff": nodiff, "opts": opts or {}}
+            "nodiff": nodiff, "opts": opts or {}, "search": search or []}
 
 Q = {"budget": "150s", "timeout": 400}
 T = {"budget": "25m", "timeout": 3000}
@@ -24,6 +24,24 @@ PRUNE = [
 ]
 
 PROPS = {
+    "C07": {
+        "level": "model_checking",
+        "harnesses": [
+            H("H_C07_seedSchedule", "real findBug with symbolic 64-bit base seed, N=2 (quick) / 3 (thorough); property = data-dependent pass/skip/fail on the first PRNG word; then a second findBug run from the reported seed", reach=["failed", "no-failure"], quick=Q, thorough=T, search=["seed"]),
+            H("H_C07_plumbing", "real checkTB with symbolic non-zero -rapid.seed, checks=1, nofailfile, shrinktime 0", reach=["failed", "not-failed"], quick=Q, thorough=T, search=["flagseed"]),
+            H("H_C07_determinism", "two runs of the real doCheck (checks=2, shrinktime 0) from one symbolic seed, compared invocation by invocation", reach=["failed", "passed"], quick=Q, thorough=T, search=["seed"]),
+        ],
+        "assumptions": ENGINE_ASSUME + ["jsf64 with a symbolic seed is abstracted to an arbitrary word sequence that is a function of the seed expression (same seed, same words); with concrete state the real jsf64 code runs",
+                                        "clock stub: deadline never reached, shrinktime=0 ends minimisation before the first round"],
+    },
+    "C08": {
+        "level": "model_checking",
+        "harnesses": [
+            H("H_C08_repeat", "real T.Repeat/executeAction/runAction with 1..2 actions (2 symbolic opcodes each over {return, draw, skip, Fatalf, Errorf, panic}), optional invariant (1 symbolic opcode), -rapid.steps=2, buffer stream of 10 (quick) / 14 (thorough) symbolic words; trace checked by the check/action automaton", reach=["falsified", "passed", "invalid-or-novalid", "step-completed"], quick=Q, thorough=T),
+            H("H_C08_noValidAction", "one action that always skips, all-ones stream of 400 words: Repeat must give up after validActionTries and fail", reach=["always-skips", "runs"], quick=Q, thorough=T),
+        ],
+        "assumptions": ENGINE_ASSUME + ["StateMachineActions (reflection) is outside the claim"],
+    },
     "C04": {
         "level": "model_checking",
         "harnesses": PRUNE,
